@@ -543,6 +543,9 @@ def overflow_structural(body, t):
     return "usize arithmetic on structural quantities (constants, lengths, positions, unit-step counters): cannot reach 2^64 on in-memory data in feasible time"
 
 
+PROG = None  # set by the caller that owns the program (closure bodies are looked up in it)
+
+
 def _tainted(body, op, seen, depth):
     if depth <= 0:
         return True
@@ -571,6 +574,20 @@ def _tainted(body, op, seen, depth):
                 return True
             if last in STRUCTURAL_CALLS:
                 continue
+            if last in ("map", "map_or", "map_or_else", "and_then", "unwrap_or_else", "filter", "or_else") and c is not None and c.path.startswith("std::option::Option") and PROG is not None:
+                # a combinator on an Option: structural when its operands are and the closures it is given neither parse
+                # nor convert from a float
+                bad_ = False
+                for a_ in rv.get("args", []):
+                    cid_ = R.closure_id_of_operand(body, a_)
+                    if cid_ is not None:
+                        cb_ = PROG.bodies.get(cid_)
+                        if cb_ is None or cb_.call_sites(lambda c2: c2.path.split("::")[-1] in TAINT_CALLS) or any((s_.get("rv") or {}).get("k") == "cast" and str(cb_.local_ty((op_place((s_["rv"]).get("op")) or (0,))[0])) in ("f32", "f64") for _x, _i, s_ in cb_.all_stmts()):
+                            bad_ = True
+                    elif _tainted(body, a_, seen, depth - 1):
+                        bad_ = True
+                if not bad_:
+                    continue
             return True  # unknown producer
         k = rv["k"]
         if k == "use":
